@@ -45,6 +45,16 @@ def replay(entry, repo_root):
 
 
 def _run_pair(job):
+    from vlib.par import with_timeout, JobTimeout
+    try:
+        return with_timeout(_run_pair_inner, job, 120)
+    except JobTimeout:
+        a, b, opt = job
+        return 0, [{'what': f"refinement did not finish within 120s for {str(a)[:80]!r} vs {str(b)[:80]!r}", 'class': 'c04-timeout',
+                    'input': {'a': str(a)[:200], 'b': str(b)[:200], 'opt': opt}, 'replay': None}], []
+
+
+def _run_pair_inner(job):
     a, b, opt = job
     from vlib.monitor import Monitor
     mon = Monitor().install()
@@ -84,6 +94,13 @@ def bounded(tier, seed, repo_root):
     budget = 40000 if tier == 'quick' else 400000
     pairs, exhaustive = D.sample_pairs(docs, budget, seed)
     jobs = [(a, b, gt.OPTION_COMBOS[i % 9]) for i, (a, b) in enumerate(pairs)]
+    # large sizes: accumulated path costs beyond 2**16 (numpy cell widths are outside the VC generator: integers there
+    # are mathematical)
+    # (long strings are only ever compared with short scalars here: a string-vs-string pair would build a 30000^2 matrix)
+    big = ["x" * 30000, "y" * 30000, "z" * 30001, "w" * 70000]
+    large = [([big[0], big[1], big[2]], [1, 2]), ([1, 2], [big[0], big[1], big[2]]), ([big[3], 1], [2]),
+             ({"a": [big[0], big[1], big[2]]}, {"a": [7]}), ([big[0], big[1], big[2], big[3]], [5, 6, 7])]
+    jobs += [(a, b, gt.OPTION_COMBOS[0]) for a, b in large]
     res = pmap(_run_pair, jobs, repo_root)
     fails = [f for _, fs, _ in res for f in fs]
     calls = sum(c for c, _, _ in res)
